@@ -797,13 +797,15 @@ def c03(ctx):
             "owner holding data"
             + "; a third of the Puts carry an expiry of an hour; two joins in a row before any move; for R=2 a crash of the sender or the receiver at one of the five steps of a fragment move (gate at move.exported / move.sent / merge.locked / merge.conflict / merge.done); every fourth scenario with the members' own push and balancer timers; janitor and compaction timers in the small-table clusters")
     design = [("Rebalance", "Rebalance_quick.cfg" if quick else "Rebalance_thorough.cfg", {"timeout": 2400}),
-              ("RoleSwap", "RoleSwap_ordered.cfg", {}), ("EvictRace", "EvictRace_cond.cfg", {}), ("ReadMove", "ReadMove_prevfirst.cfg", {})]
+              ("RoleSwap", "RoleSwap_ordered.cfg", {}), ("EvictRace", "EvictRace_cond.cfg", {}), ("ReadMove", "ReadMove_prevfirst.cfg", {}), ("DeleteMove", "DeleteMove_prevfirst.cfg", {})]
     # two old members swapping roles: the balancer's two independent moves leave both copies on one member for a while (D26)
     vlib.design_expect_violation(ctx, "RoleSwap", "RoleSwap.cfg", "Survives", "D26", name="RoleSwap-as-is")
     # eviction on a previous owner deletes the backup copy whatever version it holds (D32, open); deleting locally only leaves
     # expired copies behind (the repair that was withdrawn); a delete that names the expired version does neither
     # a Get that overlaps a table move: this node first, then the previous owner (as found, D37 repaired) misses the key
     vlib.design_expect_violation(ctx, "ReadMove", "ReadMove.cfg", "Found", "D37 (the lookup order before the repair)", name="ReadMove-local-first")
+    # a Delete on the new owner that overlaps a table move: fragment lock first, previous owner second (as found, D38 repaired)
+    vlib.design_expect_violation(ctx, "DeleteMove", "DeleteMove.cfg", "Gone", "D38 (the lock order before the repair)", name="DeleteMove-lock-first")
     vlib.design_expect_violation(ctx, "EvictRace", "EvictRace.cfg", "BackupKept", "D32", name="EvictRace-as-is")
     vlib.design_expect_violation(ctx, "EvictRace", "EvictRace_local.cfg", "NoLeftover", "D32 (withdrawn repair)", name="EvictRace-local")
     return ledger_run(ctx, "TestC03", "c03.ndjson", "c03.summary.json", {"VERIF_SCENARIOS": 12 if quick else 300}, design, rule, "rebalancing")
